@@ -250,6 +250,117 @@ def sec_trees(ck, mt, a, part=0, parts=1):
     ck.sample({"tree": r.printed[len(r.printed) // 2]["tree"], "valuation": r.printed[len(r.printed) // 2]["val"],
                "sat": r.printed[len(r.printed) // 2]["sat"], "info": r.printed[len(r.printed) // 2]["info"]})
 
+class _Bare(object):
+    """a solver stub for the conditions of TermExtra.tla: only what the step gives it"""
+    pass
+
+
+def sec_extra(ck, mt, a, corrupt=False):
+    """TimeLimits and GradientNormTolerance: every script of specs/term/TermExtra.tla on the real conditions.
+    The three clocks of the time module are scripted (TimeLimits binds its timer when it is created)."""
+    thorough = a.tier == "thorough"
+    import time as _time, datetime, warnings
+    warnings.simplefilter("ignore")
+    r = run_tlc("term/MC_TermExtra", cfg="MC_TermExtra_thorough.cfg" if thorough else "MC_TermExtra_quick.cfg",
+                workers=1, timeout=3000)
+    if r.violated:
+        ck.violation("spec:" + r.violated, {"tlc": r.out[-4000:]}, "TLC: design property %s violated in TermExtra" % r.violated)
+    ck.mc(r, "TermExtra")
+    INF_ = 1000000
+    clocks = {"wall": 0.0, "perf": 0.0, "cpu": 0.0}
+    fake = {"time": lambda: clocks["wall"], "perf_counter": lambda: clocks["perf"], "process_time": lambda: clocks["cpu"]}
+    real = {k: getattr(_time, k) for k in fake}
+    EPOCH = {0: {"wall": 0.0, "perf": 0.0, "cpu": 0.0}, 1: {"wall": 2.0, "perf": 0.5, "cpu": 1.25}}   # quarter seconds / 4
+
+    def make_time(secs, system):
+        for k, f in fake.items():
+            setattr(_time, k, f)
+        try:
+            return mt.TimeLimits(secs, system)
+        finally:
+            for k, f in real.items():
+                setattr(_time, k, f)
+    nskip = 0
+    for n, sc in enumerate(r.printed):
+        par, script = sc["par"], sc["script"]
+        if corrupt and n == 7:
+            script = [dict(st) for st in script]
+            script[-1]["v"] = not script[-1]["v"]
+        if sc["kind"] == "time":
+            clocks.update(EPOCH[par["epoch"]])
+            q = par["secs"]
+            form = n % 3
+            secs = (q // 4) if (form == 0 and q % 4 == 0) else datetime.timedelta(seconds=q * 0.25) if form == 1 else q * 0.25
+            system = {"wall": None, "perf": True, "cpu": False}[par["clock"]]
+            cond = make_time(secs, system)
+            inst = _Bare()
+            for k, st in enumerate(script):
+                if st["op"] == "tick":
+                    clocks[st["clock"]] += st["d"] * 0.25
+                elif st["op"] == "tickall":
+                    for c in clocks:
+                        clocks[c] += st["d"] * 0.25
+                else:
+                    cond.reset()
+                got, info = bool(cond(inst)), cond(inst, True)
+                exp = bool(st["v"])
+                ck.case(nontrivial=exp or st["op"] == "reset", key=("time", n, k))
+                if got != exp or info != (cond.__doc__ if exp else ""):
+                    ck.violation("extra:TimeLimits:%s" % ("after-reset" if any(x["op"] == "reset" for x in script[:k + 1]) else par["clock"]),
+                                 {"params": par, "seconds": repr(secs), "system": system, "script": script, "step": k,
+                                  "expected": exp, "got": got, "info": info},
+                                 "TimeLimits(%r, system=%r) after %s: spec %s, mystic %s (info %r)"
+                                 % (secs, system, [(x["op"], x["clock"], x["d"]) for x in script[:k + 1]], exp, got, info))
+                    break
+            # rebuilt from its reported state: a NEW counter (it starts now)
+            if n % 5 == 0 and form != 1:     # (state() evaluates the repr of the settings: a timedelta has no evaluable repr there)
+                for k_, f in fake.items():
+                    setattr(_time, k_, f)
+                try:
+                    again = rebuild(mt, cond)
+                finally:
+                    for k_, f in real.items():
+                        setattr(_time, k_, f)
+                exp0 = par["secs"] <= 0
+                if again.__doc__ != cond.__doc__ or bool(again(inst)) != exp0:
+                    ck.violation("extra:TimeLimits:rebuilt", {"params": par, "doc": cond.__doc__, "rebuilt_doc": again.__doc__},
+                                 "TimeLimits rebuilt from state %r: doc %r, satisfied at once %s (spec %s)"
+                                 % (cond.__doc__, again.__doc__, bool(again(inst)), exp0))
+            ck.trace()
+            continue
+        # ---- GradientNormTolerance
+        tolv = par["tol"][0] / float(par["tol"][1])
+        norm = float("inf") if par["norm"] == INF_ else par["norm"]
+        cond = mt.GradientNormTolerance(tolerance=tolv, norm=norm)
+        cond2 = rebuild(mt, cond)
+        inst = _Bare()
+        if par["stored"]:
+            inst.gradient = []
+        for k, st in enumerate(script):
+            g = [float(v) for v in st["g"]]
+            if par["stored"]:
+                inst.gradient.append(g if (n + k) % 2 else __import__("numpy").array(g))
+            else:
+                if st["b"]:
+                    nskip += 1           # a numerical gradient cannot decide a case ON the boundary
+                    continue
+                inst.bestSolution = [0.5 + 0.25 * i for i in range(len(g))]
+                inst._cost = (None, (lambda x, g=g: 1.0 + sum(c * float(v) for c, v in zip(g, x))), None)
+            exp = bool(st["v"])
+            got, info, got2 = bool(cond(inst)), cond(inst, True), bool(cond2(inst))
+            ck.case(nontrivial=exp, key=("grad", n, k))
+            if got != exp or got2 != exp or info != (cond.__doc__ if exp else ""):
+                ck.violation("extra:GradientNormTolerance:norm=%s:%s" % (norm, "recorded-gradient" if par["stored"] else "gradient-of-cost"),
+                             {"params": par, "script": script, "step": k, "expected": exp, "got": got, "rebuilt": got2, "info": info},
+                             "GradientNormTolerance(%s, norm=%s) with gradient %s (%s): spec %s, mystic %s (rebuilt %s)"
+                             % (tolv, norm, g, "recorded" if par["stored"] else "of a linear cost", exp, got, got2))
+                break
+        ck.trace()
+    ck.extra["extra_boundary_steps_not_decidable_numerically"] = nskip
+    if r.printed:
+        ck.sample({"TermExtra_script": r.printed[len(r.printed) // 2]})
+
+
 def explore(ck, mt, a):
     """quick: the three sections one after the other; thorough: the sections (and four parts of the tree catalogue) in
     forked children running side by side, merged into ck"""
@@ -259,11 +370,13 @@ def explore(ck, mt, a):
         sec_histories(ck, mt, a)
         sec_populations(ck, mt, a)
         sec_trees(ck, mt, a)
+        sec_extra(ck, mt, a, corrupt=(getattr(a, "corrupt", None) == "extra"))
     else:
         from harness.c08_nmpw import _Forked
         parts = 4
         jobs = [_Forked(lambda c, a_, corrupt, light: sec_histories(c, mt, a_), ck, a),
-                _Forked(lambda c, a_, corrupt, light: sec_populations(c, mt, a_), ck, a)]
+                _Forked(lambda c, a_, corrupt, light: sec_populations(c, mt, a_), ck, a),
+                _Forked(lambda c, a_, corrupt, light: sec_extra(c, mt, a_), ck, a)]
         for p in range(parts):
             jobs.append(_Forked((lambda p: lambda c, a_, corrupt, light: sec_trees(c, mt, a_, p, parts))(p), ck, a))
         for j in jobs:
@@ -271,7 +384,13 @@ def explore(ck, mt, a):
     ck.assumptions = ["tolerances are dyadic rationals >= 0 and energies small integers or +inf, so IEEE arithmetic is exact",
                       "NormalizedChangeOverGeneration is specified in its implemented cross-multiplied form with IEEE "
                       "semantics for +inf (the documented quotient form is 0/0 or inf/inf there)",
-                      "TimeLimits, GradientNormTolerance and the Collapse* conditions are not leaves here (C11 covers Collapse*)"]
+                      "TimeLimits is driven with scripted clocks (time.time / perf_counter / process_time replaced while the "
+                      "condition is created); seconds are quarter seconds given as int, float or timedelta; a condition "
+                      "rebuilt from its state is a new counter",
+                      "GradientNormTolerance: norms 1, 2, inf on small integer gradients (recorded by the solver, or of a "
+                      "linear cost through the numerical gradient, where cases ON the boundary are not decidable and skipped)",
+                      "the Collapse* conditions are not leaves here (C11 covers them); in the tree section the leaves are "
+                      "VTR / EvaluationLimits / SolverInterrupt / ChangeOverGeneration / NormalizedCostTarget"]
 
 
 def selftest(a, mt):
@@ -351,7 +470,24 @@ def selftest(a, mt):
             return _EvaluationLimits
         mt.EvaluationLimits = EvaluationLimits
 
-    mutants = [("ChangeOverGeneration window off by one (lg <= g -> lg < g)", m_cog_window),
+    import inspect, textwrap
+
+    def patched(name, old_, new_):
+        def mut():
+            src = textwrap.dedent(inspect.getsource(orig[name]))
+            assert src.count(old_) == 1, (name, old_)
+            ns = dict(vars(mt))
+            exec(compile(src.replace(old_, new_), "<mutant %s>" % name, "exec"), ns)
+            setattr(mt, name, ns[name])
+        return mut
+
+    mutants = [("TimeLimits >= becomes >", patched("TimeLimits", ">= delta[0]", "> delta[0]")),
+               ("TimeLimits system=True uses the wall clock", patched("TimeLimits", "timer = time.perf_counter", "timer = time.time")),
+               ("TimeLimits reset() does nothing", patched("TimeLimits", "start[0] = timer()\n    delta", "pass\n    delta")),
+               ("GradientNormTolerance <= becomes <", patched("GradientNormTolerance", "gnorm <= tolerance", "gnorm < tolerance")),
+               ("GradientNormTolerance ignores norm", patched("GradientNormTolerance", "p=norm", "p=inf")),
+               ("GradientNormTolerance reads the FIRST recorded gradient", patched("GradientNormTolerance", "[None])[-1]", "[None])[0]")),
+               ("ChangeOverGeneration window off by one (lg <= g -> lg < g)", m_cog_window),
                ("VTR <= becomes <", m_vtr_strict),
                ("Or reports info of unsatisfied members", m_or_info_all),
                ("And evaluated as any()", m_and_any),
@@ -369,7 +505,7 @@ def selftest(a, mt):
                 explore(ck, mt, a)
             except Exception as ex:       # a mutant that makes mystic raise is caught as well
                 print('mutant raised', repr(ex)); ck.violations += 1
-        for k in ("ChangeOverGeneration", "VTR", "CandidateRelativeTolerance", "EvaluationLimits"):
+        for k in ("ChangeOverGeneration", "VTR", "CandidateRelativeTolerance", "EvaluationLimits", "TimeLimits", "GradientNormTolerance"):
             setattr(mt, k, orig[k])
         mt.Or.__call__ = or_call
         if and_call is None:
